@@ -559,6 +559,106 @@ def unit_contract_wv(ncomp):
     return run
 
 
+def unit_fraclapl_plan(nspin, history=False):
+    """FracLaplPlan.get_feat / get_vxc (the fractional-Laplacian feature plan between the orbital operations and the model): with E = sum vfeat * feat as a function
+    of the plan's input array, get_vxc returns dE/d(input) for every spin, component and grid point — l=0 rows, every l=1 / derivative dot product (self-dots (j, j)
+    and dots with the density gradient, index -1, included) and the pass-through rows.  With history=True (C09): get_feat leaves its input unchanged; with the default
+    make_l1_data_copy=True the potential does not depend on what the caller writes into its input buffer between the feature pass and the potential pass; a second
+    round on the same plan equals a fresh plan.  Real methods on symbolic arrays; the settings object is a stub carrying the counts and the dot-product index pairs."""
+    def run(ctx):
+        it = ctx.interp
+        pm = it.load_module(PMOD)
+        fq = [PMOD + ":FracLaplPlan." + n for n in ("get_feat", "get_vxc", "_cache_all_l1_data", "_cache_l1_vectors", "_cache_ld_vectors", "_clear_l1_cache")]
+        nk0, nk1, nd1, ndd = 1, 2, 2, 1
+        l1_dots, ld_dots = [(0, 1), (0, 0), (-1, 1), (-1, -1)], [(0, 1), (-1, 0), (1, 1)]
+        nrho = nk0 + 3 * nk1 + 3 * nd1 + ndd
+        nfeat = nk0 + len(l1_dots) + len(ld_dots) + ndd
+        nsl, ng = 5, NS
+        tag = "FracLaplPlan[nspin=%d]" % nspin
+
+        def fresh():
+            st = Obj(ClassV("_FLSettings", [], pm))
+            st.fields.update({"nk0": nk0, "nk1": nk1, "nd1": nd1, "ndd": ndd, "nrho": nrho, "nfeat": nfeat, "l1_dots": list(l1_dots), "ld_dots": list(ld_dots)})
+            return it.call(pm.ns["FracLaplPlan"], [st, nspin], {})
+        rho = sym_array("r", (nspin, nsl + nrho, ng))
+        vf = sym_array("v", (nspin, nfeat, ng))
+        it.hyps = []
+        try:
+            plan = fresh()
+            buf = rho.copy()
+            feat = np.asarray(it.call_method(plan, "get_feat", [buf]), dtype=object).copy()
+            frame_ok = same_elements(buf, rho)
+            if history:
+                buf[...] = sym_array("other", buf.shape)          # the caller re-uses its array before asking for the potential
+            vin = vf.copy()
+            vxc = np.asarray(it.call_method(plan, "get_vxc", [vin]), dtype=object).copy()
+        except (Unsupported, PyRaise) as e:
+            ctx.undecided("%s runs" % tag, str(e)[:300], fq)
+            return
+        ctx.holds("%s: shapes (nspin, nfeat, ngrids) / (nspin, nsl + nrho, ngrids)" % tag, feat.shape == (nspin, nfeat, ng) and vxc.shape == rho.shape, "%s %s" % (feat.shape, vxc.shape), fq)
+        if feat.shape != (nspin, nfeat, ng) or vxc.shape != rho.shape:
+            return
+        uninit = [u.args[0] for x in list(feat.reshape(-1)) + list(vxc.reshape(-1)) for u in tm.free_vars(tm.lift(x)) if u.args[0].startswith("uninit!")]
+        ctx.holds("%s: features and potential do not depend on uninitialised memory" % tag, not uninit, "%s" % uninit[:3], fq)
+        E = tm.mk_add(*[tm.lift(vf[idx]) * tm.lift(feat[idx]) for idx in np.ndindex(*feat.shape)])
+        for idx in np.ndindex(*rho.shape):
+            want = tm.diff(E, rho[idx])
+            if tm.lift(vxc[idx]) is want:
+                ctx.holds("%s: vxc%s = d(sum vfeat * feat)/d input%s%s" % (tag, list(idx), list(idx), " (input buffer overwritten in between)" if history else ""), True, "", fq)
+            else:
+                ctx.equal("%s: vxc%s = d(sum vfeat * feat)/d input%s%s" % (tag, list(idx), list(idx), " (input buffer overwritten in between)" if history else ""), [], vxc[idx], want, fq,
+                          replay=replay_fraclapl_plan(nspin, history))
+        ctx.canary("%s canary (self-dot counted once)" % tag, [], tm.lift(vxc[(0, nsl + nk0, 0)]), tm.lift(vf[(0, nk0, 0)]) * rho[(0, nsl + nk0 + 3, 0)])
+        if not history:
+            return
+        ctx.holds("%s: get_feat leaves the caller's array unchanged, get_vxc leaves vfeat unchanged" % tag, frame_ok and same_elements(vin, vf), "", fq, replay=replay_fraclapl_plan(nspin, history))
+        try:
+            rho2 = sym_array("q", rho.shape)
+            it.call_method(plan, "get_feat", [rho2.copy()])
+            it.call_method(plan, "get_vxc", [vf.copy()])
+            f_again = np.asarray(it.call_method(plan, "get_feat", [rho.copy()]), dtype=object)
+            v_again = np.asarray(it.call_method(plan, "get_vxc", [vf.copy()]), dtype=object)
+        except (Unsupported, PyRaise) as e:
+            ctx.undecided("%s second round runs" % tag, str(e)[:300], fq)
+            return
+        ctx.holds("%s: a second round on a used plan gives the features and the potential of a fresh plan" % tag,
+                  all(tm.lift(a) is tm.lift(b) for a, b in zip(f_again.reshape(-1), feat.reshape(-1))) and all(tm.lift(a) is tm.lift(b) for a, b in zip(v_again.reshape(-1), vxc.reshape(-1))), "", fq)
+    return run
+
+
+def replay_fraclapl_plan(nspin, history):
+    def replay(wit):
+        from pyvc import native
+        native.install_shim()
+        from ciderpress.dft.plans import FracLaplPlan
+        nk0, nk1, nd1, ndd = 1, 2, 2, 1
+        l1_dots, ld_dots = [(0, 1), (0, 0), (-1, 1), (-1, -1)], [(0, 1), (-1, 0), (1, 1)]
+        nrho = nk0 + 3 * nk1 + 3 * nd1 + ndd
+        nfeat = nk0 + len(l1_dots) + len(ld_dots) + ndd
+        st = type("S", (), dict(nk0=nk0, nk1=nk1, nd1=nd1, ndd=ndd, nrho=nrho, nfeat=nfeat, l1_dots=l1_dots, ld_dots=ld_dots))()
+        rng = np.random.RandomState(4)
+        ng = 3
+        rho = rng.rand(nspin, 5 + nrho, ng)
+        v = rng.rand(nspin, nfeat, ng)
+        plan = FracLaplPlan(st, nspin)
+        buf = rho.copy()
+        plan.get_feat(buf)
+        changed = float(np.max(np.abs(buf - rho)))
+        if history:
+            buf[...] = rng.rand(*buf.shape)
+        vxc = plan.get_vxc(v.copy())
+        worst, h = 0.0, 1e-6
+        for idx in np.ndindex(*rho.shape):
+            e = []
+            for sgn in (1, -1):
+                q = rho.copy()
+                q[idx] += sgn * h
+                e.append(float((v * FracLaplPlan(st, nspin).get_feat(q)).sum()))
+            worst = max(worst, abs(vxc[idx] - (e[0] - e[1]) / (2 * h)))
+        return {"reproduced": bool(worst > 1e-5 or changed > 0), "max |vxc - finite difference|": worst, "input changed by get_feat": changed, "buffer overwritten between the passes": bool(history)}
+    return replay
+
+
 def unit_sdmx_plan_potential(clsname, n0, n1, nspin):
     """SDMX plans between EXXSphGenerator's contractions and the model: the features are quadratic in the projected density matrix p_vag, and get_vxc must return
     HALF the derivative of sum_ig vxc_ig * feat_ig with respect to p_vag — EXXSphGenerator.get_vxc_ adds the (non-symmetric) matrix built from it to vmat and
@@ -808,6 +908,8 @@ def units():
         u.append(("sdmx-plan/%s/n0_%d_n1_%d_nspin%d" % (clsname, n0, n1, nspin), unit_sdmx_plan_potential(clsname, n0, n1, nspin)))
     for n0, n1 in ((1, 0), (2, 0), (1, 1)):
         u.append(("sdmx-generator/n0_%d_n1_%d" % (n0, n1), unit_sdmx_generator(n0, n1)))
+    for nspin in (1, 2):
+        u.append(("fraclapl-plan/nspin%d" % nspin, unit_fraclapl_plan(nspin)))
     from contracts import c05
     u.append(("sdmx-adjoint", c05.unit_pair(c05.PAIRS[1])))
     # the reverse interpolation pass is the transpose of the forward pass (Python chain of LCAOInterpolator around the spline kernels)
